@@ -2,6 +2,9 @@
 # False-alarm self-test: every kept behaviour-preserving refactor (benign/<id>/patch.diff) is applied to a scratch
 # copy of /repo and ALL six quick checks are run against it; every one must stay silent. Writes benign/MATRIX.md.
 # Built from a snapshot of /verif taken at start; JOBS changes in parallel.
+# (this copy is meant to be run with RELATED=1)
+# RELATED=1: each change is run only against its own property and the ones that share code with it (C01<->C09,
+# C04/C18/C19 share the interpreter, C12<->C18 share the fee quote); the other columns show "-".
 JOBS=${JOBS:-2}
 SNAP=$(mktemp -d /var/tmp/verifsnap.XXXXXX)
 trap 'rm -rf "$SNAP"' EXIT
@@ -14,13 +17,20 @@ one() {
   if ! (cd "$W" && patch -p1 -s --no-backup-if-mismatch < "$SNAP/verif/$d/patch.diff"); then echo "| $id | PATCH DOES NOT APPLY |"; rm -rf "$W"; return; fi
   row="| $id |"
   for p in C01 C04 C09 C12 C18 C19; do
+    if [ -n "$RELATED" ]; then
+      case "$id" in
+        c01-*) rel="C01 C09" ;; c09-*) rel="C09 C01" ;; c04-*) rel="C04 C18 C19" ;; c12-*) rel="C12 C18" ;;
+        c18-*) rel="C18 C12 C19 C04" ;; c19-*) rel="C19 C18 C04" ;; *) rel="C01 C04 C09 C12 C18 C19" ;;
+      esac
+      case " $rel " in *" $p "*) ;; *) row="$row - |"; continue ;; esac
+    fi
     VERIF_REPO="$W" VERIF_NO_EVIDENCE=1 VERIF_REPLAY_DIR="$W.replays" VERIF_WORKERS=8 "$SNAP/verif/bin/check" $p quick >/dev/null 2>&1
     if [ $? -eq 0 ]; then row="$row silent |"; else row="$row **ALARM** |"; fi
   done
   rm -rf "$W" "$W.replays"
   echo "$row"
 }
-export -f one; export SNAP
+export -f one; export SNAP RELATED
 ls -d benign/*/ | xargs -P "$JOBS" -I{} bash -c 'one {}' | sort > "$SNAP/rows"
 {
   echo "| benign change | C01 | C04 | C09 | C12 | C18 | C19 |"
